@@ -100,7 +100,7 @@ CHECKS["C14"] = dict(
     note=COMMON_NOTE + " Float/real gap: reversibility checked to 1e-9 relative, model comparison to 1e-12 relative.")
 
 CHECKS["C10"] = dict(
-    technique="Coq proof over the reals (Model/Ops.v, Proofs/OpsProofs.v, Props/C10.v: ring/nra/field on explicit 3-vectors and 3x3 "
+    technique="Coq proof over the reals (Model/Ops.v, Proofs/OpsProofs.v, Proofs/OpsMeasure.v with Coquelicot for the law-preserving involutions, Props/C10.v: ring/nra/field on explicit 3-vectors and 3x3 "
               "matrices, sin^2+cos^2, matrix-exponential contract as Section hypotheses with a consistency witness) + scripted-generator "
               "correspondence of every operation.calculate() with the same definitions evaluated by the Coq-Interval tactic",
     text="Theorems for all steps/strains, draws in support, cells, groups, masses, masks: |ball| = r <= step, |sphere| = step, box within "
